@@ -99,7 +99,12 @@ func (mod *Module) findIdentityBase(baseStr string) (*resolvedIdentity, []error)
 	case "", rootPrefix:
 		// This is a local identity which is defined within the current
 		// module
-		keyName := fmt.Sprintf("%s:%s", module(mod).Name, baseName)
+		owner := module(mod)
+		if owner == nil {
+			// mod is a submodule whose module is not loaded.
+			owner = mod
+		}
+		keyName := fmt.Sprintf("%s:%s", owner.Name, baseName)
 		base, ok = typeDict.identities.dict[keyName]
 		if !ok {
 			errs = append(errs, fmt.Errorf("%s: can't resolve the local base %s as %s", source, baseStr, keyName))
@@ -113,7 +118,10 @@ func (mod *Module) findIdentityBase(baseStr string) (*resolvedIdentity, []error)
 			break
 		}
 		// The identity we are looking for is modulename:basename.
-		if id, ok := typeDict.identities.dict[fmt.Sprintf("%s:%s", module(extmod).Name, baseName)]; ok {
+		if m := module(extmod); m != nil {
+			extmod = m
+		}
+		if id, ok := typeDict.identities.dict[fmt.Sprintf("%s:%s", extmod.Name, baseName)]; ok {
 			base = id
 			break
 		}
